@@ -49,6 +49,20 @@ CHECKS = {
                       '~HP/~DHP, never for a non-retired object; deterministic eager clause: scan() with no guard on an object frees it, with a guard keeps it until released (n below/at/above array capacity and block size)',
         'level_note': SMR_NOTE,
     },
+    'C04': {
+        'technique': 'runtime monitoring: reader-side poison monitor inside (nested) read-side critical sections of all four URCU flavours while writers retire / batch_retire / synchronize-then-dispose; ASan build with really freed objects',
+        'level_text': 'An object loaded inside a read-side critical section (nesting 1-3, inner sections closing in the middle) is re-read until the outermost access_unlock; the DISPOSED mark or an ASan use-after-free there is a violation. '
+                      'Writers unlink and then use every retire form or call synchronize() and dispose the object themselves (checks that synchronize waits for pre-existing readers). 22 configurations: '
+                      'general_instant, general_buffered, general_threaded, signal_buffered x buffer capacity {2,3,4,8,256} (overflow path on almost every retire) x lock/back-off, with thread attach/detach churn. '
+                      'Capacity 1 is a library precondition violation (debug assert, release livelock) and is not driven',
+        'level_note': SMR_NOTE,
+    },
+    'C05': {
+        'technique': 'runtime monitoring: exactly-once dispose ledger over every object retired through the URCU flavours, checked in the disposer and after destruction of the gc<> singleton; LeakSanitizer',
+        'level_text': 'Every object retired in the C04 workloads (retire_ptr overloads, batch_retire by iterator and by functor with empty/single/long ranges, bursts past the buffer capacity, force_dispose) '
+                      'is followed in a side-table ledger: disposer at most once at any time, exactly once after ~gc (Destruct drains the buffer, the disposer thread makes its final pass), never for a non-retired object',
+        'level_note': SMR_NOTE,
+    },
     'C06': {
         'technique': 'runtime monitoring: recorded concurrent histories checked by a WGL linearizability checker against a sequential FIFO model; ASan/UBSan; TSan payload happens-before monitor',
         'level_text': 'Every recorded round/segment history (2-4 threads, seeded programs, delays injected before every libcds atomic operation, tiny HP/DHP thresholds so nodes are reclaimed and reused) '
